@@ -285,6 +285,20 @@ func runC02(ctx *core.Ctx, idx int) *core.Result {
 				kextra = append(kextra, "keyed-element-probe")
 			}
 			semBatch(ctx, idx, res, kv, ksrcs, kextra, idx%16 == 2, "C02")
+			// ... nor for the '...' of an array type or of a variadic parameter
+			el := &gen.Change{Kind: "expr", Schema: "c02-ellipsis-is-not-an-expression", Meta: mv2("x", "expression"),
+				Lines: []gen.Line{gen.L('-', "wrapArr([«x»]int{})"), gen.L('+', "wrapLen(«x»)")}}
+			var esrcs, eextra []string
+			for f := 0; f < 2; f++ {
+				var plants []gen.Plant
+				for p := 0; p < 2+r.Intn(4); p++ {
+					ln := []string{"...", "3", g.Ident(), "len(" + g.Ident() + ")", "..."}[r.Intn(5)]
+					plants = append(plants, gen.Plant{Kind: "expr", Text: "wrapArr([" + ln + "]int{})"})
+				}
+				esrcs = append(esrcs, g.File(gen.FileOpts{Plants: plants}))
+				eextra = append(eextra, "ellipsis-probe")
+			}
+			semBatch(ctx, idx, res, el, esrcs, eextra, false, "C02")
 		}
 	case 3:
 		leakCase(ctx, idx, res, g)
